@@ -285,128 +285,3 @@ Proof.
   reflexivity.
 Qed.
 
-(* ------------------------------------------------------------------------------------- *)
-(** * States of bytes and the four round transformations *)
-
-Definition isb (x : Uint63.int) : Prop := exists n, (n < 256)%N /\ x = psi n.
-
-Definition bst (s : st16) : Prop :=
-  let '(St16 x0 x1 x2 x3 x4 x5 x6 x7 x8 x9 x10 x11 x12 x13 x14 x15) := s in
-  isb x0 /\ isb x1 /\ isb x2 /\ isb x3 /\ isb x4 /\ isb x5 /\ isb x6 /\ isb x7 /\
-  isb x8 /\ isb x9 /\ isb x10 /\ isb x11 /\ isb x12 /\ isb x13 /\ isb x14 /\ isb x15.
-
-Lemma isb_psi n : (n < 256)%N -> isb (psi n).
-Proof. intro H. exists n. auto. Qed.
-
-(* open a byte state: sixteen N below 256 *)
-Ltac open_bst s H :=
-  destruct s; cbn [bst] in H;
-  destruct H as ((?n & ?Hn & ->) & (?n & ?Hn & ->) & (?n & ?Hn & ->) & (?n & ?Hn & ->) &
-                 (?n & ?Hn & ->) & (?n & ?Hn & ->) & (?n & ?Hn & ->) & (?n & ?Hn & ->) &
-                 (?n & ?Hn & ->) & (?n & ?Hn & ->) & (?n & ?Hn & ->) & (?n & ?Hn & ->) &
-                 (?n & ?Hn & ->) & (?n & ?Hn & ->) & (?n & ?Hn & ->) & (?n & ?Hn & ->)).
-
-Ltac close_bst := cbn [bst]; repeat split; apply isb_psi; auto 10 with b256.
-
-Lemma sub_shift_bst s : bst s -> bst (sub_shift s).
-Proof.
-  intro H. open_bst s H. cbn [sub_shift]. rewrite !sbox_psi by assumption. close_bst.
-Qed.
-
-Lemma inv_shift_sub_sub_shift s : bst s -> inv_shift_sub (sub_shift s) = s.
-Proof.
-  intro H. open_bst s H. cbn [sub_shift inv_shift_sub]. rewrite !sbox_psi by assumption.
-  rewrite !inv_sbox_psi by apply SN_lt. rewrite !ISN_SN by assumption. reflexivity.
-Qed.
-
-Lemma add_round_key_bst s k : bst s -> bst k -> bst (add_round_key s k).
-Proof.
-  intros H K. open_bst s H. open_bst k K. cbn [add_round_key st16_map2].
-  rewrite !lxor_psi by assumption. close_bst.
-Qed.
-
-Lemma add_round_key_involutive s k : bst s -> bst k -> add_round_key (add_round_key s k) k = s.
-Proof.
-  intros H K. open_bst s H. open_bst k K. cbn [add_round_key st16_map2].
-  rewrite !lxor_psi by assumption. rewrite !lxor_psi by auto with b256.
-  rewrite !N.lxor_assoc, !N.lxor_nilpotent, !N.lxor_0_r. reflexivity.
-Qed.
-
-Lemma lin4_lt' f0 f1 f2 f3 a0 a1 a2 a3 :
-  bp f0 -> bp f1 -> bp f2 -> bp f3 ->
-  (a0 < 256)%N -> (a1 < 256)%N -> (a2 < 256)%N -> (a3 < 256)%N ->
-  (lin4 f0 f1 f2 f3 a0 a1 a2 a3 < 256)%N.
-Proof. apply lin4_lt. Qed.
-#[local] Hint Resolve lin4_lt' : b256.
-
-Lemma mix_columns_bst s : bst s -> bst (mix_columns s).
-Proof.
-  intro H. open_bst s H. cbn [mix_columns].
-  rewrite !mix_column_psi by assumption. cbv beta iota. close_bst.
-Qed.
-
-Lemma inv_mix_columns_mix_columns s : bst s -> inv_mix_columns (mix_columns s) = s.
-Proof.
-  intro H. open_bst s H. cbn [mix_columns].
-  rewrite !mix_column_psi by assumption. cbv beta iota. cbn [inv_mix_columns].
-  rewrite !inv_mix_column_psi by auto with b256. cbv beta iota.
-  pose proof (inv_mixN_mixN n n0 n1 n2 Hn Hn0 Hn1 Hn2) as C0.
-  pose proof (inv_mixN_mixN n3 n4 n5 n6 Hn3 Hn4 Hn5 Hn6) as C1.
-  pose proof (inv_mixN_mixN n7 n8 n9 n10 Hn7 Hn8 Hn9 Hn10) as C2.
-  pose proof (inv_mixN_mixN n11 n12 n13 n14 Hn11 Hn12 Hn13 Hn14) as C3.
-  unfold mixN, inv_mixN in C0, C1, C2, C3. cbv beta iota in C0, C1, C2, C3.
-  injection C0 as -> -> -> ->. injection C1 as -> -> -> ->.
-  injection C2 as -> -> -> ->. injection C3 as -> -> -> ->.
-  reflexivity.
-Qed.
-
-(* ------------------------------------------------------------------------------------- *)
-(** * The round structure: the inverse cipher undoes the cipher, for ANY list of byte round
-      keys (the key schedule is opaque here) *)
-
-Lemma aes_rounds_step x k ks : ks <> [] ->
-  aes_rounds x (k :: ks) = aes_rounds (add_round_key (mix_columns (sub_shift x)) k) ks.
-Proof. destruct ks; [congruence | reflexivity]. Qed.
-
-Lemma aes_inv_rounds_step t k ks : ks <> [] ->
-  aes_inv_rounds t (k :: ks) = aes_inv_rounds (inv_mix_columns (add_round_key (inv_shift_sub t) k)) ks.
-Proof. destruct ks; [congruence | reflexivity]. Qed.
-
-Lemma rounds_inverse mids : forall x kn tail,
-  bst x -> Forall bst mids -> bst kn -> tail <> [] ->
-  aes_inv_rounds (add_round_key (aes_rounds x (mids ++ [kn])) kn) (rev mids ++ tail)
-  = aes_inv_rounds (sub_shift x) tail.
-Proof.
-  induction mids as [|k ms IH]; intros x kn tail Hx Hms Hkn Htail.
-  - cbn [app rev aes_rounds].
-    rewrite add_round_key_involutive by auto using sub_shift_bst. reflexivity.
-  - inversion Hms as [|? ? Hk Hms']; subst.
-    cbn [app]. rewrite aes_rounds_step by (destruct ms; discriminate).
-    cbn [rev]. rewrite <- app_assoc. cbn [app].
-    set (x' := add_round_key (mix_columns (sub_shift x)) k).
-    assert (Hx' : bst x') by (apply add_round_key_bst; auto using mix_columns_bst, sub_shift_bst).
-    rewrite IH by (auto; discriminate).
-    rewrite aes_inv_rounds_step by assumption.
-    rewrite inv_shift_sub_sub_shift by assumption.
-    unfold x'. rewrite add_round_key_involutive by auto using mix_columns_bst, sub_shift_bst.
-    rewrite inv_mix_columns_mix_columns by auto using sub_shift_bst. reflexivity.
-Qed.
-
-Theorem aes_decrypt_encrypt_st (ks : aes_ks) (s : st16) :
-  Forall bst ks -> bst s -> aes_decrypt_st ks (aes_encrypt_st ks s) = s.
-Proof.
-  intros Hks Hs. destruct ks as [|k0 rest]; [reflexivity|].
-  inversion Hks as [|? ? Hk0 Hrest]; subst.
-  unfold aes_encrypt_st, aes_decrypt_st.
-  destruct (exists_last (l := rest)) as [Hnil | (mids & kn & ->)].
-  - (* a single round key *)
-    destruct rest; [|exfalso]. 2:{ apply Hnil. discriminate. }
-    cbn [rev app aes_rounds aes_inv_rounds]. now apply add_round_key_involutive.
-  - apply Forall_app in Hrest as [Hmids Hkn]. inversion Hkn; subst.
-    replace (rev (k0 :: mids ++ [kn])) with (kn :: rev mids ++ [k0])
-      by (cbn [rev]; rewrite rev_app_distr; reflexivity).
-    assert (Hx : bst (add_round_key s k0)) by now apply add_round_key_bst.
-    rewrite rounds_inverse by (auto; discriminate).
-    cbn [aes_inv_rounds]. rewrite inv_shift_sub_sub_shift by assumption.
-    now apply add_round_key_involutive.
-Qed.
